@@ -113,10 +113,21 @@ func (c *FakeCluster) SetOwner(slot, node int) {
 	if old == node {
 		return
 	}
-	for k, v := range c.Nodes[old].store {
-		if SlotOf([]byte(k)) == slot {
-			c.Nodes[node].store[k] = v
-			delete(c.Nodes[old].store, k)
+	// every key of the slot ends up on the new owner: those on the old owner and, when a migration of the slot was
+	// under way (it is over with this), those already moved to its target
+	from := []int{old}
+	if m, busy := c.migr[slot]; busy {
+		from = append(from, m[1])
+	}
+	for _, src := range from {
+		if src == node {
+			continue
+		}
+		for k, v := range c.Nodes[src].store {
+			if SlotOf([]byte(k)) == slot {
+				c.Nodes[node].store[k] = v
+				delete(c.Nodes[src].store, k)
+			}
 		}
 	}
 	c.owner[slot] = node
